@@ -134,6 +134,18 @@ Section Frame2.
     apply Q2_hp_change; [exact GR|]. rewrite (get_unit_id _ _ _ G). exact G.
   Qed.
 
+  Lemma Q2_heal_hp R (GR : q2_runner R) s id src a s' : heal_hp cfg R s id src a = Some s' -> Q s s'.
+  Proof.
+    unfold heal_hp. destruct (get_unit (units s) id) as [u|] eqn:G; [|intros H; inversion H; subst; apply Q_refl].
+    apply Q2_hp_change; [exact GR|]. rewrite (get_unit_id _ _ _ G). exact G.
+  Qed.
+  Lemma Q2_do_heals R (GR : q2_runner R) : forall ts s self a s', do_heals cfg R s self a ts = Some s' -> Q s s'.
+  Proof.
+    induction ts as [|t ts IH]; intros s self a s' H; cbn [do_heals] in H; [inversion H; subst; apply Q_refl|].
+    destruct (heal_hp cfg R s t self a) as [s1|] eqn:E1; [|discriminate].
+    eapply Q_trans; [eapply Q2_heal_hp; eassumption|eapply IH; exact H].
+  Qed.
+
   Lemma Q2_do_hits R (GR : q2_runner R) : forall ts s self dmg s',
     do_hits cfg R s self dmg ts = Some s' -> Q s s'.
   Proof.
@@ -188,6 +200,8 @@ Section Frame2.
     - destruct (get_unit (units s) _) as [u|] eqn:G; inversion H; subst; [|apply Q_refl].
       eapply Q2_upd_same; [exact G|reflexivity|reflexivity].
     - inversion H; subst. apply Q_sample.
+    - match type of H with (if ?c then _ else _) = _ => destruct c end; [inversion H; subst; apply Q_refl|].
+      eapply Q2_do_heals; eassumption.
   Qed.
 
   Lemma Q2_exec_list R (GR : q2_runner R) lm : forall ops s self p s',
